@@ -272,7 +272,10 @@ func (WireOracle) AfterStep(m *VM, rec *Rec) {
 			m.Violate("C07", "reserialization-differs", "Unmarshal followed by Serialize does not reproduce the bytes", fmt.Sprintf("op %d: err=%v\n in: %x\nout: %x", rec.I, err, clipB(bl.Data), clipB(again)))
 		}
 		if orig := m.Tok(bl.FromTok); orig != nil {
-			if a, b := Fingerprint(orig.B), Fingerprint(nt.B); a != b {
+			// what the property names: content (printed Datalog of the blocks), revocation
+			// identifiers, root key id, block count, context. The full String() also prints
+			// each block's private symbol table, which a reloaded token need not lay out the same way.
+			if a, b := LooseFingerprint(orig.B), LooseFingerprint(nt.B); a != b {
 				m.Violate("C07", "reloaded-token-differs", "reloaded token prints / identifies differently from the original", fmt.Sprintf("op %d: %s", rec.I, firstDiff(a, b)))
 			}
 		}
